@@ -34,7 +34,7 @@ def variants():
     rng = np.random.default_rng(7)
     return dict(
         z=[z0, z1], profiles=[prof0, prof1], domain=[(60.0, 48.0), (72.0, 48.0)], modes=[(6, 6), (4, 6)],
-        measPt=[(20.0, 16.0), (30.0, 16.0)], halo=[10.0, 20.0, 60.0, 72.0], precision=["double", "single"],
+        measPt=[(20.0, 16.0), (30.0, 16.0)], halo=[10.0, 20.0, 60.0, 72.0, 0.0], precision=["double", "single"],
         levels=[2, [2], [1, 3], 3], shape=[(6, 6), (8, 6)], analytic=[True, False], bg=[0.0, 1.5],
         q=[0, 1],
     )
@@ -355,6 +355,12 @@ def run(rng, tier, deep):
     rn = base_req()
     rn["halo"] = None
     hists.append([("R", rn), ("R", rn), ("X",), ("R", rn), ("R", rn)])
+    # default halo vs every explicit halo value (incl. 0.0 and the value the default resolves to), both orders
+    for k in range(len(V["halo"])):
+        r = base_req()
+        r["halo"] = k
+        hists.append([("R", r), ("R", rn), ("R", r), ("R", rn), ("R", rn)])
+        hists.append([("R", rn), ("R", r), ("R", rn), ("R", r), ("R", r)])
     lines = [model_line(h, V, bits) for h in hists]
     outs = run_driver(lines)
     for h, l, o in zip(hists, lines, outs):
